@@ -15,6 +15,7 @@ MIRI_BOXCAR = dict(name="boxcar", argv=["boxcar", "1", "20"], seeds=32)
 MIRI_BOXCAR_SCRIPTS = [dict(name=f"boxcar-script-{k}", argv=["boxcar-script", str(k)], seeds=6) for k in range(1, 9)]
 MIRI_NUCLEO = dict(name="nucleo", argv=["nucleo", "1", "16"], seeds=32)
 MIRI_EVENTLOOP = dict(name="eventloop", argv=["eventloop", "1", "40"], seeds=64, timeout=3000)
+MIRI_KINDS = [dict(name=f"kinds-{v}", argv=["kinds", str(v)], seeds=2, timeout=3000) for v in (0, 1)]
 MIRI_SORT = dict(name="sort", argv=["sort", "4100", "2"], seeds=2, timeout=1500)
 
 PROPERTIES = {
@@ -29,7 +30,7 @@ PROPERTIES = {
         assumptions=COMMON_ASSUMPTIONS,
         probes_expected=["run.canceled", "tick.stale_run_discarded", "join.stolen", "boxcar.cas_lost", "take_any_while.stopped",
                          "worker.heapsort_on_killer_batch"],
-        miri=[MIRI_NUCLEO],
+        miri=[MIRI_NUCLEO] + MIRI_KINDS,
     ),
     "C07": dict(
         quick_runs=400_000, thorough_runs=6_000_000, level="exploration",
@@ -63,7 +64,7 @@ PROPERTIES = {
                "Entry::read, per-thread matcher cell) must be ordered after the last conflicting access.",
         assumptions=COMMON_ASSUMPTIONS + ["memory outside the hooked regions is race-checked only by engine B (Miri)"],
         probes_expected=["boxcar.cas_lost", "join.stolen"],
-        miri=[MIRI_BOXCAR, MIRI_NUCLEO, MIRI_SORT] + MIRI_BOXCAR_SCRIPTS,
+        miri=[MIRI_BOXCAR, MIRI_NUCLEO, MIRI_SORT, MIRI_KINDS[0]] + MIRI_BOXCAR_SCRIPTS,
     ),
     "C11": dict(
         quick_runs=300_000, thorough_runs=4_000_000, level="fault_enumeration",
